@@ -388,6 +388,21 @@ VERDE_MODULES = [
 ]
 
 
+_ACTIVE = []
+_MISSING = object()
+
+
+def _restore(entries):
+    for mod, name, old, _new in reversed(entries):
+        if old is _MISSING:
+            try:
+                delattr(mod, name)
+            except AttributeError:
+                pass
+        else:
+            setattr(mod, name, old)
+
+
 @contextlib.contextmanager
 def installed(extra=None):
     """Rebind ``np`` / ``int`` / ``float`` / ``min`` / ``max`` in every verde
@@ -395,15 +410,15 @@ def installed(extra=None):
     duration of a symbolic run; restore afterwards."""
     import importlib
 
-    saved = []
-    missing = object()
+    entries = []
 
     def setg(mod, name, obj):
-        saved.append((mod, name, mod.__dict__.get(name, missing)))
+        entries.append((mod, name, mod.__dict__.get(name, _MISSING), obj))
         setattr(mod, name, obj)
 
     import verde  # noqa: F401
 
+    _ACTIVE.append(entries)
     try:
         for mn in VERDE_MODULES:
             importlib.import_module(mn)
@@ -421,11 +436,19 @@ def installed(extra=None):
             setg(mod, name, obj)
         yield NP
     finally:
-        for mod, name, old in reversed(saved):
-            if old is missing:
-                try:
-                    delattr(mod, name)
-                except AttributeError:
-                    pass
-            else:
-                setattr(mod, name, old)
+        _ACTIVE.pop()
+        _restore(entries)
+
+
+@contextlib.contextmanager
+def suspended():
+    "temporarily undo every rebinding (used while a model is replayed on the unstubbed code)"
+    stacks = list(_ACTIVE)
+    for entries in reversed(stacks):
+        _restore(entries)
+    try:
+        yield
+    finally:
+        for entries in stacks:
+            for mod, name, _old, new in entries:
+                setattr(mod, name, new)
